@@ -34,7 +34,7 @@ class Scene:
 
 def build(shape, faces, widths=None, spacing=50e-9, complex_fields=None, bloch_vector=(0.0, 0.0, 0.0),
           pml_thickness=2, extra_objects=(), extra_constraints=(), time=1e-15, gradient="reversible",
-          courant_factor=0.99, symmetry=(0, 0, 0), dtype="float64"):
+          courant_factor=0.99, symmetry=(0, 0, 0), dtype="float64", extra_fn=None):
     """place a volume of `shape` cells with the given face kinds
     (none | periodic | bloch | pec | pmc | pml); `widths` = per-axis cell-width lists for a RectilinearGrid"""
     j = J()
@@ -66,6 +66,10 @@ def build(shape, faces, widths=None, spacing=50e-9, complex_fields=None, bloch_v
             cs.append(c)
     objs += list(extra_objects)
     cs += list(extra_constraints)
+    if extra_fn is not None:
+        eo, ec = extra_fn(vol)
+        objs += list(eo)
+        cs += list(ec)
     objects, arrays, params, config, info = fdtdx.place_objects(object_list=objs, config=cfg, constraints=cs,
                                                                  key=jax.random.PRNGKey(0))
     s = Scene()
